@@ -126,17 +126,18 @@ RECURSIVE SkipRun(_, _)
 SkipRun(a, start) ==
   IF start > 0 /\ start < Len(a) /\ At(a, start - 1).d = At(a, start).d THEN SkipRun(a, start + 1) ELSE start
 
-\* The step shared by collapse and by the first loop of merge: "merge the last
-\* (up to D) nodes, but do not split a run of equal depth".  As coded
-\* (Variant "ok") the start index can run up to the last node, and mergeNodes
-\* is then called with a single node: its panic.  Variant "fix_lone" is the
-\* proposed repair (fixes-proposed/C16-lone-node-panic.diff): when the last
-\* node stands alone behind a full run of D equal-depth nodes, that run is
-\* merged first.
+\* subtree.go: mergeLast -- the step shared by collapse and by the first loop
+\* of merge: "merge the last (up to D) nodes, but do not split a run of equal
+\* depth".  When the last node stands alone behind a full run of D nodes of
+\* equal depth (merge can leave such a tail, e.g. depths <<2 x 16, 0>>), that
+\* run is merged first.  Variant "pre_fix_lone" is the code before commit
+\* 85b29fa: there the start index ran up to the last node and mergeNodes was
+\* called with a single node -- its panic.  TLC found this in the model
+\* (NoPanic, D = 2, 12 pages); it is kept as a negative control.
 MergeLastS(t) ==
   LET n == Len(t)
       start == SkipRun(t, Max(n - D, 0))
-  IN IF Variant = "fix_lone" /\ n - start < 2 THEN MergeNodesS(t, n - 1 - D, n - 1)
+  IN IF Variant # "pre_fix_lone" /\ n - start < 2 THEN MergeNodesS(t, n - 1 - D, n - 1)
      ELSE MergeNodesS(t, start, n)
 
 \* writer.go: the loop at the end of AppendPage*/AppendPageDict
@@ -147,7 +148,7 @@ AppendLoopS(t) ==
      THEN UNION {AppendLoopS(t2) : t2 \in MergeNodesS(t, n - D, n)}
      ELSE {t}
 
-\* writer.go: collapse
+\* writer.go: collapse ("for len(w.tail) > 1 { w.tail = w.mergeLast(w.tail) }")
 RECURSIVE CollapseS(_)
 CollapseS(t) ==
   IF Len(t) > 1 /\ ~HasBad(t)
